@@ -139,6 +139,11 @@ def _lkey(e):
     return e.get("hid", e.get("local"))
 
 
+ITER_CLOSURE_METHODS = ("map", "filter_map", "flat_map", "and_then", "map_while", "scan", "fold", "try_fold", "then", "map_or", "map_or_else",
+                        "for_each", "any", "all", "position", "try_for_each", "count", "filter", "find", "skip_while", "take_while", "inspect", "find_map",
+                        "max_by_key", "min_by_key", "retain", "is_some_and", "is_none_or")
+
+
 class KindFlow:
     """Producer side: for every function of a parser impl, the element kinds its returned items may have;
     and the contents of every container variant."""
@@ -179,7 +184,7 @@ class KindFlow:
                 if v in self.containers:
                     idx = self.containers[v]
                     if idx < len(e["args"]):
-                        self.content.setdefault(v, set()).update(self.eval(f, e["args"][idx]))
+                        self.content.setdefault(v, set()).update(flat_tags(self.eval(f, e["args"][idx])))
                 return {v}
         if e.get("e") in ("match", "if", "block"):
             out = set()
@@ -225,7 +230,23 @@ class KindFlow:
                 self._bind_args(f, d, [e["recv"]] + e["args"], method=True)
                 return set(self.ret[d])
             out = self.eval(f, e["recv"])
-            if e["name"] in ("unwrap_or", "unwrap_or_else", "or", "or_else", "chain", "zip", "extend", "append"):
+            nm = e["name"]
+            if nm == "zip" and e["args"]:
+                return {("zip", frozenset(out), frozenset(self.eval(f, e["args"][0])))}
+            if nm == "enumerate":
+                return {("enum", frozenset(out))}
+            cl = [hirq.strip(a) for a in e["args"] if hirq.strip(a).get("e") == "closure"]
+            if cl and nm in ITER_CLOSURE_METHODS:
+                # the closure's parameter receives the elements of the receiver
+                c = cl[0]
+                if c.get("params"):
+                    self.bind(f, c["params"][-1] if nm in ("fold", "try_fold") else c["params"][0], out)
+                if nm in ("map", "filter_map", "flat_map", "and_then", "map_while", "scan", "fold", "try_fold", "then", "map_or", "map_or_else"):
+                    return self.eval(f, c["body"])
+                if nm in ("for_each", "any", "all", "position", "try_for_each", "count"):
+                    return set()
+                return out
+            if nm in ("unwrap_or", "unwrap_or_else", "or", "or_else", "chain", "extend", "append"):
                 for a in e["args"]:
                     out |= self.eval(f, a)
             return out
@@ -243,7 +264,7 @@ class KindFlow:
             if sp in self.extra_struct:
                 for name, val in e["fields"]:
                     if name in self.extra_struct[sp]:
-                        v_ = self.eval(f, val)
+                        v_ = flat_tags(self.eval(f, val))
                         self.named.setdefault("%s.%s" % (sp.rsplit("::", 1)[-1], name), set()).update(v_)
                         self.named.setdefault("%s.%s@%s" % (sp.rsplit("::", 1)[-1], name, f.rsplit("::", 1)[-1]), set()).update(v_)
             return set()
@@ -1161,3 +1182,178 @@ def _loop_between(cfg, a, b_):
         if b_ not in body:
             return True
     return False
+
+
+# ====================================================================== PAN-6
+
+
+def _all_pats(node):
+    out = []
+
+    def rec(x):
+        if isinstance(x, dict):
+            if "p" in x:
+                out.append(x)
+            for v in x.values():
+                rec(v)
+        elif isinstance(x, list):
+            for v in x:
+                rec(v)
+    rec(node)
+    return out
+
+
+CHAR_CLASSES = {
+    "is_ascii_uppercase": [chr(c) for c in range(ord("A"), ord("Z") + 1)],
+    "is_ascii_lowercase": [chr(c) for c in range(ord("a"), ord("z") + 1)],
+    "is_ascii_digit": [chr(c) for c in range(ord("0"), ord("9") + 1)],
+}
+
+
+def modifier_alphabet(lex_body, min_line=None, max_line=None):
+    """characters the lexer's get_feature accepts as the modifier of a feature: char literals compared with the
+    current character, char ranges in `matches!`, ascii classes -- restricted to the part before the feature name loop"""
+    singles, classes = set(), set()
+    root = lex_body.hir["body"]
+    # only the gate (first statement: the early `return Ok(None)`) and the `-X` prefix test decide the modifier
+    for p in _all_pats(root):
+        if p["p"] == "range" and p.get("lo", {}).get("lk") == "char" and p.get("hi", {}).get("lk") == "char":
+            lo, hi = ord(p["lo"]["lit"]), ord(p["hi"]["lit"])
+            if p.get("end") != "Included":
+                hi -= 1
+            if hi - lo > 512:
+                raise AnchorMissing("modifier range too wide to enumerate")
+            for c in range(lo, hi + 1):
+                classes.add(chr(c))
+    for n in hirq.walk(root):
+        if n["e"] == "mcall" and n["name"] in CHAR_CLASSES:
+            classes.update(CHAR_CLASSES[n["name"]])
+        if n["e"] == "binary" and n["op"] in ("Ne", "Eq"):
+            for side in (n["l"], n["r"]) if "l" in n else (n.get("a"), n.get("b")):
+                s0 = hirq.strip(side) if side else {}
+                if s0.get("e") == "lit" and s0.get("lk") == "char":
+                    singles.add(s0["lit"])
+    return singles, classes
+
+
+def pan6(ctx):
+    r = RuleResult("PAN-6", "every feature modifier the lexer can put into a Feature token has an arm in the parser's curr_token_to_modifier (whose default arm is unreachable!())", floor=2)
+    lib = ctx.lib
+    pairs = [("rule grammar", "asca::lexer::Lexer::get_feature", "asca::parser::Parser::curr_token_to_modifier"),
+             ("alias grammar", "asca::alias::lexer::AliasLexer::get_feature", "asca::alias::parser::AliasParser::curr_token_to_modifier")]
+    for gname, lp, pp in pairs:
+        lb, pb = ctx.fn(lib, lp), ctx.fn(lib, pp)
+        singles, classes = modifier_alphabet(lb)
+        if not ({"+", "-"} <= singles):
+            raise AnchorMissing("%s: '+'/'-' comparisons not found in the lexer gate" % lp)
+        # the parser's match over the token value: arms with string-literal patterns
+        target = None
+        for n in hirq.walk(pb.hir["body"]):
+            if n["e"] == "match" and any(p["p"] == "lit" and p.get("lk") == "str" for a in n["arms"] for p in _all_pats(a["pat"])):
+                target = n
+                break
+        if target is None:
+            raise AnchorMissing("%s: match over the modifier string not found" % pp)
+        listed = {p["lit"] for a in target["arms"] for p in _all_pats(a["pat"]) if p["p"] == "lit" and p.get("lk") == "str"}
+        default_panics = False
+        for a in target["arms"]:
+            if a["pat"].get("p") == "wild" and not a.get("guard") and hirq.arm_is_pure_panic(a["body"]):
+                default_panics = True
+        # values the lexer can emit: the modifier character itself, or '-' followed by a class character
+        # (digits belong to the tone path, which the guarded `_ if feature == Tone` arm takes)
+        emitted = set(singles) - {"."} | set(classes) | {"-" + c for c in classes}
+        emitted = {v for v in emitted if not v.isdigit()}
+        missing = sorted(emitted - listed)
+        ok = not (default_panics and missing)
+        r.inst("%s: lexer emits %d modifier values (%d class characters), parser lists %d, default arm %s" % (
+            gname, len(emitted), len(classes), len(listed), "panics" if default_panics else "does not panic"), fn_loc(pb, target["ln"]),
+            "ok" if ok else "report")
+        if not ok:
+            cls = "".join(sorted(c for c in classes))[:12]
+            r.report("PAN-6|%s|unlisted-modifiers" % pp, fn_loc(pb, target["ln"]), pb.path,
+                     "%s: the lexer (%s) accepts %d modifier values that no arm lists, e.g. %s; they reach the `_ => unreachable!()` arm: a feature written with such a modifier panics instead of returning a syntax error"
+                     % (gname, lp.rsplit("::", 2)[-2] + "::get_feature", len(missing), ", ".join(repr(m) for m in missing[:4])),
+                     missing=missing[:60])
+    return r
+
+
+# ====================================================================== PAN-7
+
+
+STR_TYS = ("str", "&str", "&mut str", "alloc::string::String", "&alloc::string::String", "&mut alloc::string::String")
+SAFE_OFFSET_METHODS = ("find", "rfind", "len", "char_indices", "match_indices", "rmatch_indices", "floor_char_boundary", "ceil_char_boundary")
+
+
+def str_slices(body):
+    """(index node, [bound exprs]) for every range-slice of a str/String in the function"""
+    out = []
+    for n in hirq.walk(body.hir["body"]):
+        if n["e"] != "index" or (n.get("of_ty") or "") not in STR_TYS:
+            continue
+        i = hirq.strip(n["i"])
+        bounds = []
+        if i.get("e") == "struct" and "ops::range::Range" in (i.get("path") or ""):
+            bounds = [v for _, v in i["fields"]]
+        elif i.get("e") == "call" and "ops::range::Range" in (hirq.strip(i["f"]).get("path") or ""):
+            bounds = list(i["args"])
+        elif i.get("e") == "path" and "RangeFull" in (i.get("path") or ""):
+            continue
+        else:
+            bounds = [i]
+        out.append((n, bounds))
+    return out
+
+
+def _offset_safe(e, base_name, lets, depth=0):
+    """the offset is a byte offset of the sliced string itself: literal 0, s.len(), s.find(..) and friends (through
+    unwrap_or / map / min / max / single lets / + literal width is NOT accepted)"""
+    from engine_err import expr_name
+    e = hirq.strip(e)
+    if depth > 8:
+        return False
+    if e.get("e") == "lit":
+        return e.get("lit") == 0
+    if e.get("e") == "path" and "local" in e and e["local"] in lets:
+        return _offset_safe(lets[e["local"]], base_name, lets, depth + 1)
+    if e.get("e") == "mcall":
+        if e["name"] in SAFE_OFFSET_METHODS:
+            return expr_name(e["recv"]) == base_name or (expr_name(e["recv"])[0] == "local" and expr_name(e["recv"])[1] in lets
+                                                         and expr_name(lets[expr_name(e["recv"])[1]]) == base_name)
+        if e["name"] in ("unwrap", "expect", "unwrap_or", "unwrap_or_default", "min", "max", "unwrap_or_else"):
+            return _offset_safe(e["recv"], base_name, lets, depth + 1) and all(_offset_safe(a, base_name, lets, depth + 1) for a in e["args"] if hirq.strip(a).get("e") != "closure")
+    if e.get("e") in ("match", "if", "block"):
+        return False
+    return False
+
+
+def pan7(ctx, unit=None, only=None):
+    r = RuleResult("PAN-7", "no str/String is range-sliced by an offset that is not a byte offset of that same string (a character column slices inside a multi-byte IPA letter and panics)", floor=0)
+    from engine_err import expr_name, single_lets
+    units = [unit] if unit else [ctx.lib, ctx.bin]
+    n_fn = 0
+    for u in units:
+        for b in u.bodies:
+            if not b.hir or b.in_test_mod() or b.kind == "closure":
+                continue
+            if only and not any(s in b.path for s in only):
+                continue
+            n_fn += 1
+            sl = str_slices(b)
+            if not sl:
+                continue
+            lets = single_lets(b.hir["body"])
+            for k, (n, bounds) in enumerate(sl):
+                base = expr_name(n["a"])
+                if base[0] == "local" and base[1] in lets and expr_name(lets[base[1]])[0] in ("local", "field"):
+                    pass
+                bad = [bd for bd in bounds if not _offset_safe(bd, base, lets)]
+                r.inst("%s: slice of `%s` by %s" % (b.path, base[-1], "its own byte offsets" if not bad else "a foreign offset"), fn_loc(b, n["ln"]), "ok" if not bad else "report")
+                if bad:
+                    r.report("PAN-7|%s|#%d" % (b.path, k), fn_loc(b, n["ln"]), b.path,
+                             "`%s[..]` is sliced at an offset that is not derived from that string's own byte positions (len/find/char_indices): with IPA text a character column falls inside a multi-byte letter and the slice panics" % base[-1])
+    r.analysed = {"functions_scanned": n_fn}
+    r.nontrivial = n_fn
+    if n_fn < 300 and not only and not unit:
+        raise AnchorMissing("PAN-7 scanned only %d functions" % n_fn)
+    r.inst("%d functions of lib and bin scanned for str range-slices" % n_fn, None)
+    return r
